@@ -201,6 +201,7 @@ type eventList struct {
 	seqs    sequenceNumSlice
 	events  map[sequenceNum]*event
 	lastSeq sequenceNum
+	hasLast bool // true once lastSeq holds a delivered sequence number.
 	maxSize int
 	timeout time.Duration
 }
@@ -223,6 +224,26 @@ func (l *eventList) remove() {
 	}
 }
 
+// advance records seq as delivered and returns the number of sequence numbers
+// that were skipped since the last in-order delivery. Duplicate and late
+// sequence numbers (those not after lastSeq, accounting for rollover) neither
+// count as a gap nor move lastSeq backwards.
+func (l *eventList) advance(seq sequenceNum) int {
+	if !l.hasLast {
+		l.hasLast = true
+		l.lastSeq = seq
+		return 0
+	}
+
+	// Distance from lastSeq to seq modulo 2^32 (handles rollover).
+	diff := seq - l.lastSeq
+	if diff == 0 || diff > maxSortRange {
+		return 0
+	}
+	l.lastSeq = seq
+	return int(diff - 1)
+}
+
 // Clear removes all events from the list and returns the events and the number
 // of list events.
 func (l *eventList) Clear() ([]*event, int) {
@@ -242,10 +263,7 @@ func (l *eventList) Clear() ([]*event, int) {
 		seq = l.seqs[0]
 		event := l.events[seq]
 
-		if l.lastSeq > 0 {
-			lost += int(seq - l.lastSeq - 1)
-		}
-		l.lastSeq = seq
+		lost += l.advance(seq)
 		evicted = append(evicted, event)
 		l.remove()
 	}
@@ -301,10 +319,7 @@ func (l *eventList) CleanUp() ([]*event, int) {
 		event := l.events[seq]
 
 		if event.complete || size > l.maxSize || event.IsExpired() {
-			if l.lastSeq > 0 {
-				lost += int(seq - l.lastSeq - 1)
-			}
-			l.lastSeq = seq
+			lost += l.advance(seq)
 			evicted = append(evicted, event)
 			l.remove()
 			continue
